@@ -72,6 +72,12 @@ CHECKS = {
   text='Generated modules of up to three helper functions and a caller (callees with and without their own context, called inside nested with-blocks, loops, comprehensions, if-expressions and short-circuit operands, as arguments of other calls, with list arguments they mutate, with local names clashing with the caller\'s, chains of depth 3, multi-return callees and calls in while conditions that must be refused) are transformed by inline (all sites recursive / one level / one level twice, random single sites, restricted to one callee), monomorphize (two pinned caller contexts, pinned argument types), close, lift_context and their compositions; the original is evaluated "in the corresponding way" (for monomorphize: called with ctx=<pinned context>, the result called without) on 8 inputs under several caller contexts including REAL and compared structurally.',
   ref='DESIGN.md 1.5, 2/C09',
   note='Trusted: the original program\'s own result. Documented refusals (RuntimeError, ValueError, CallGraphError, TransformDeclined, TransformReferenceError) are counted, not judged.'),
+ 'C10': dict(
+  technique='differential runtime monitor at Function.__call__: the quantizer `with C: y = round(x)` for every enumerated context C versus each lowering rewrite and every prefix of the documented chain, on the breakpoint operands of C\'s format',
+  category='exploration',
+  text='For every statically constructible context of the enumeration used by C01 (all float and fixed families, every rounding mode, overflow mode, NaN/infinity option and substitute value; 640 sampled per seed in quick, all in thorough) a module with the quantizers `with C: y = round(x)`, `with C: return round(x)` and `with C: y = cast(x)` is decorated by the real @fp.fpy. Each rewrite alone (unfold_special, unfold_neg_zero, unfold_overflow with and without early_check, float_to_fixed, rescale_fixed, simplify), every prefix of length >= 2 of the documented chain (both overflow variants) and two random orders of three rewrites are applied; original and lowered programs are run on the breakpoint operands of the format (every representable neighbourhood boundary: midpoints, one-ulp-off midpoints, subnormal range, emin, the overflow threshold and the first value rounding past it, the clamp bounds, huge and tiny magnitudes, +-0, +-inf, NaN) and compared structurally including the sign of zero. A refusal (TransformDeclined) is acceptable, any other exception of a rewrite is a violation. elim_round / insert_round (+ simplify, + each other) are applied to four exact-arithmetic programs monomorphized at 63 (argument format, caller context) pairs and compared on 40 (300) operand triples drawn from every member of the argument format.',
+  ref='DESIGN.md 2/C10',
+  note='Trusted: the original quantizer (itself under the independent rounding oracle of C01). Operands on which the original raises are counted, not compared. Inconclusive when fewer than 25% of the lowered variants differ textually from the original. Known findings F32 (elim_round hoisting under a context without -0) and F33 (ValueError from format inference) are reported as KNOWN-FINDING.'),
  'C15': dict(
   technique='bounded enumeration of program skeletons compiled by the real front end; accepted ones executed on every combination of branch outcomes and trip counts; the Python runtime\'s unbound-variable detection and a definite-assignment judgement as oracles',
   category='exploration',
